@@ -95,6 +95,22 @@ def cases(tier, seed):
             for room in range(0, 2 * n + 3):
                 ops.append("slip.enc %s %s %d - -" % (sof, p, room))
         cs.append(Case("encerr-%d" % j, ops, ("faults",)))
+    # the encoder on top of drivers that fragment, stall or fail (scripted source and sink of both styles): the
+    # two-octet escapes must survive a sink that takes one octet at a time
+    scripts_plain = ["-", "k1", "k1,k1,k1,k1,k1,k1,k1,k1", "k2,k1,k3,k1,k1,k2", "k1,k2,k1,k2,k1,k2,k1,k2,k1,k2"]
+    scripts_soft = ["i", "a,k1", "k1,i,k1,a,k1", "z", "k1,z", "k2,i,i,k1", "k1,k1,h:eio", "h:epipe", "k3,h:eio"]
+    pays = ["c0", "db", "c0db", "41c0", "dbdb41c0c0", "4142", "-", "dcdd", "41db42c043"] + \
+           ["".join(rnd.choice(ALPHA) for _ in range(rnd.randint(1, 6))) for _ in range(10 if tier == "quick" else 150)]
+    ops = []
+    for p in pays:
+        for sof in "01":
+            for kk in "co":
+                for ksc in scripts_plain + (scripts_soft if kk == "c" else ["k1,k1,h:eio", "h:epipe"]):
+                    sk = rnd.choice("co")
+                    ssc = rnd.choice(scripts_plain if sk == "c" else ["-"])
+                    ops.append("slipx.enc %s %s %s %s %s %s" % (sof, sk, p, ssc, kk, ksc))
+    for i in range(0, len(ops), 400):
+        cs.append(Case("encx-%d" % i, ops[i:i + 400], ("endpoint-drivers",)))
     raw = ["41dbdcc042", "c041c0", "41db42c0", "dbc041c0", "c0c0", "4142", "db", "dbdb", "41dbddc0c042c0"] + \
           ["".join(rnd.choice(ALPHA) for _ in range(rnd.randint(1, 7))) for _ in range(8 if tier == "quick" else 80)]
     for j, s in enumerate(raw):
